@@ -21,8 +21,17 @@ impl BananaShower {
             let mut count = 0;
 
             while time <= end_time {
-                time += spacing;
                 count += 1;
+
+                let next_time = time + spacing;
+
+                // If `spacing` is too small to be added to `time`, the end
+                // would never be reached
+                if next_time <= time {
+                    break;
+                }
+
+                time = next_time;
             }
 
             count
